@@ -210,6 +210,30 @@ def gen_pattern(types, rng, pool=None, **kw):
     pool = pool or Pool()
     return [gen_axis(t, pool, rng, **kw) for t in types], pool
 
+# ---- refinements: an index of PRODUCT type p1 x ... x pk (a flat list of small atoms) seen through any grouping of
+# CONSECUTIVE atoms into blocks, one PhysicalAxis per block (12 = 2x2x3 as 12, 2*6, 4*3, 2*2*3).  Any two groupings have a
+# common refinement, so Axis.unify must succeed on them by SPLITTING the larger last factor (branches m < n / m > n of its
+# product loop), also when that factor is already bound.  A block axis may be shared between positions with the same atoms.
+REFINE_BASES = [[2, 2], [2, 3], [3, 2], [2, 2, 2], [2, 2, 3], [2, 3, 2], [3, 2, 2], [2, 2, 2, 2], [2, 3, 3], [3, 3, 2], [2, 2, 5]]
+
+def blk_type(ps):
+    return ("prod", [("atom", p) for p in ps])
+
+def gen_refine_axis(ps, pool, rng, p_split=0.6, p_share=0.4):
+    """a product of PhysicalAxes, one per block of a random grouping of the atom list ps into consecutive blocks"""
+    blocks = [[ps[0]]] if ps else []
+    for p in ps[1:]:
+        if rng.random() < p_split: blocks.append([p])
+        else: blocks[-1].append(p)
+    fs = []
+    for b in blocks:
+        t = blk_type(b)
+        cands = pool.by.get(tkey(t), [])
+        if cands and rng.random() < p_share: fs.append(("Phys", rng.choice(cands)))
+        else: fs.append(("Phys", pool.fresh(t)))
+    return a_product(fs)
+
+
 def gen_shape_types(rng, max_dims=3, max_numel=48, types=None, p_unit=0.12):
     types = types or all_types()
     while True:
